@@ -16,6 +16,7 @@ struct SchedGen {
   }
   Case gen_program(const std::string& mode, Chooser& ch) {
     if (mode == "C08" && ch.chance(1, 4)) return gen_pc_program(ch);
+    if (mode == "C08" && ch.chance(1, 3)) return gen_keeper_program(ch);
     if (mode == "C14") return ch.chance(1, 2) ? gen_bitmap_program(ch) : gen_arena_program(ch);
     Case c; int T = (int)ch.range(2, 3);
     // options
